@@ -250,8 +250,29 @@ class C15(PropBase):
                 maps = hx("10000000-10001000 r-xp 00000000 08:01 1234 /bin/x\n7f0000000000-7f0000002000 rw-p 00000000 00:00 0 [stack]\n")
         if rng.chance(1, 6):
             soft = hx(rng.choice(['[{"ListKindMissing": {"kind": "Threads"}}]', '[]', '[{"a": [1, 2.5, null, "x\\"y"]}, {"b": {}}]']))
-        return "INS %s REGS %d %s MINFO %d %s CPUINFO %s LSB %s LIMITS %s SOFT %s MAPS %s" % (
-            ins, len(regs), " ".join(map(str, regs)), len(minfo), " ".join("%d %d %d" % m for m in minfo), cpuinfo, lsb, limits, soft, maps)
+        # a hand-made amd64 frame record so that a caller recovered through the frame pointer (trust "frame_pointer") occurs:
+        # rsp = base, rbp = base+16, [rbp] = saved rbp, [rbp+8] = return address inside the anchor module
+        raw = []
+        if regs and c.exc and rng.chance(1, 3):
+            base = 0x20000000 + 0x1000 * rng.below(4)
+            mem = bytearray(64)
+            mem[16:24] = (base + 48).to_bytes(8, "little")
+            mem[24:32] = (0x70000200 + 16 * rng.below(8)).to_bytes(8, "little")
+            raw.append((base, bytes(mem).hex()))
+            c.exc["sp"] = base
+            regs[5] = base + 16
+        handles = []
+        if rng.chance(1, 5):
+            for i in range(rng.range(1, 3)):
+                handles.append((rng.choice([4, 0x1f4, U32, U64, 1 << 40]), hx(rng.choice(["File", "Section", "Event"] + SYM_HOSTILE[:4])),
+                                hx(rng.choice(HOSTILE[:8] + ["\\Device\\HarddiskVolume3\\x"]) or "x")))
+        bootargs = "-"
+        if osc == c14mod.OS_MAC and rng.chance(1, 2):
+            bootargs = hx(rng.choice(["-v keepsyms=1", 'amfi="x" \\ y', "\U0001F600 debug=0x144"]))
+        dist["frame_pointer_records"] = dist.get("frame_pointer_records", 0) + bool(raw)
+        return "INS %s REGS %d %s MINFO %d %s CPUINFO %s LSB %s LIMITS %s SOFT %s MAPS %s RAW %d %s HANDLES %d %s BOOTARGS %s" % (
+            ins, len(regs), " ".join(map(str, regs)), len(minfo), " ".join("%d %d %d" % m for m in minfo), cpuinfo, lsb, limits, soft, maps,
+            len(raw), " ".join("%d %s" % r for r in raw), len(handles), " ".join("%d %s %s" % h for h in handles), bootargs)
 
     def gen_cases(self, tier, seed):
         rng = Rng(seed * 7919 + 15)
